@@ -1,4 +1,5 @@
 import TflModel.Lemmas.LatticeEval
+import TflModel.Lemmas.LatticeSimplex
 /-!
 # C02 — Lattice output is exact hypercube / simplex interpolation, inheriting kernel shape
 
@@ -7,6 +8,13 @@ examples are independent rows/columns of the same ops, see C09). The kernel of a
 row-major list `kernelOf sizes K = (allIdx sizes).map K` of a function `K` on multi-indices.
 `evalRec sizes x K` is THE multilinear interpolant (iterated 1-D interpolation, L2); for
 `j ≤ x_d ≤ j+1` it is the chord between the neighbouring grid values (`C02_T2_cell`).
+Simplex: `walkK K 1 lower sorted` is the sorted-simplex interpolant on MULTI-INDICES (weights = gaps
+of the descending residuals, vertices `lower + e_{σ1} + … + e_{σk}`); `C02_T3_simplex_index_bridge`
+proves the code's flat offset/strides/cumsum/gather pipeline equal to it, and from there: range,
+agreement with the hypercube scheme on vertices and axis-parallel edges, tie-independence and
+all-pairs monotonicity (`C02_T4_simplex_mono`). Lemmas: `Lemmas/LatticeEval.lean` (L1, L2, code
+paths), `Lemmas/LatticeSimplex.lean` (ravel/strides, tie-independence, insertion monotonicity,
+cell faces).
 Every statement is for all ranks, sizes, rational kernels and rational points.
 -/
 namespace Tfl.C02
@@ -124,10 +132,10 @@ private theorem defined_disj {clipOn : Bool} {sizes : List Nat} {x : List ℚ} {
 /-- T2: at a vertex the output is exactly that vertex's weight. -/
 theorem C02_T2_vertex (form : InputForm) (clipOn : Bool) (sizes : List Nat) (K : W) (idx : Idx)
     (hs : sizes ≠ []) (hi : idx ∈ allIdx sizes) :
-    hypercubeValue form clipOn sizes (kernelOf sizes K) (idx.map (fun v => (v : ℚ))) = K idx := by
+    hypercubeValue form clipOn sizes (kernelOf sizes K) (idx.map (fun (v : Nat) => (v : ℚ))) = K idx := by
   have hr := inRange_vertex sizes idx hi
   rw [C02_T1_hypercube_eq_interp form clipOn sizes K _ hs hr.length_eq (Or.inr (Or.inl hr))]
-  have : effPoint clipOn sizes (idx.map (fun v => (v : ℚ))) = idx.map (fun v => (v : ℚ)) := by
+  have : effPoint clipOn sizes (idx.map (fun (v : Nat) => (v : ℚ))) = idx.map (fun (v : Nat) => (v : ℚ)) := by
     unfold effPoint; split_ifs
     · exact clip_of_inRange sizes _ hr
     · rfl
@@ -270,8 +278,7 @@ def sIndices (clipOn : Bool) (sizes : List Nat) (x : List ℚ) : List Int :=
     (sSorted clipOn sizes x).map (fun p => (((stridesCode sizes).getD p.2 0 : Nat) : Int)))
 /-- lower corner of the cell as a multi-index (all zeros for `2^d` lattices: no floor step) -/
 def lowerIdx (clipOn : Bool) (sizes : List Nat) (x : List ℚ) : Idx :=
-  if allTwo sizes then sizes.map (fun _ => 0)
-  else (lowerCorner sizes (effPoint clipOn sizes x)).map Int.toNat
+  cellIdx sizes (effPoint clipOn sizes x)
 
 /-- T3: for in-range or clipped inputs the simplex weights (gaps between the descending sorted
 residuals, padded with 1 and 0) are ≥ 0 and sum to 1: the simplex output is a convex combination
@@ -308,19 +315,66 @@ theorem C02_T3_simplex_eq_walk (clipOn : Bool) (sizes : List Nat) (kernel x : Li
   rfl
 
 /-- the index-level reading of the simplex code: gathered entries are the kernel values along the
-chain `lower, lower + e_{σ1}, lower + e_{σ1} + e_{σ2}, …`. This is the link between flat offsets +
-strides and multi-indices (ravel arithmetic). NOT proved in Lean; it is exactly the numpy
-reference `ref_simplex` of the harness, compared with the real code on every case, and instances
-are checked below by kernel computation. -/
+chain `lower, lower + e_{σ1}, lower + e_{σ1} + e_{σ2}, …` of MULTI-INDICES (`walkK` raises
+coordinate `σ_k` of the current vertex by one at step `k`), with weights the gaps between the
+sorted residuals — flat offsets, strides, cumsum and gather are gone. Proved below
+(`C02_T3_simplex_index_bridge`). -/
 def C02_simplex_index_bridge : Prop :=
   ∀ (clipOn : Bool) (sizes : List Nat) (K : W) (x : List ℚ), sizes ≠ [] → (∀ n ∈ sizes, 2 ≤ n) →
     Defined clipOn sizes x →
     evalSimplex clipOn sizes (kernelOf sizes K) x
       = .ok (walkK K 1 (lowerIdx clipOn sizes x) (sSorted clipOn sizes x))
 
+/-- T3: the literal stride computation `np.cumprod([1] + sizes[::-1][:-1])[::-1]` gives
+`stride_d = ∏_{e > d} size_e`. -/
+theorem C02_T3_strides (sizes : List Nat) (hs : sizes ≠ []) : stridesCode sizes = strides sizes :=
+  stridesCode_eq sizes hs
+
+private theorem sorted_pos_lt (clipOn : Bool) (sizes : List Nat) (x : List ℚ) (hl : x.length = sizes.length) :
+    ∀ i ∈ (sSorted clipOn sizes x).map (·.2), i < sizes.length := by
+  intro i hi
+  obtain ⟨p, hp, rfl⟩ := List.mem_map.mp hi
+  have h1 : p ∈ (sResid clipOn sizes x).zipIdx := (sortDesc_perm _).mem_iff.mp hp
+  have h2 := mem_zipIdx_snd_lt h1
+  rwa [sResid, simplexSplit_resid_length sizes _ (effPoint_length hl)] at h2
+
+private theorem verify_ok {sizes : List Nat} {x : List ℚ} (hs2 : ∀ n ∈ sizes, 2 ≤ n)
+    (hl : x.length = sizes.length) : verify sizes x = true := by
+  unfold verify
+  have : (sizes.all fun n => decide (2 ≤ n)) = true := by simpa using hs2
+  simp [this, hl]
+
+/-- T3 (index bridge): for every in-range or clipped input no gather index leaves the kernel, and
+the simplex output is `Σ_k (s_{k-1} - s_k) · K(lower + e_{σ1} + … + e_{σk})` — flat offset +
+cumulative sorted strides IS the row-major index of that chain of multi-indices. -/
+theorem C02_T3_simplex_index_bridge : C02_simplex_index_bridge := by
+  intro clipOn sizes K x hne hs2 h
+  have hy := effPoint_inRange hs2 h
+  have hroom : Room sizes (lowerIdx clipOn sizes x) ((sSorted clipOn sizes x).map (·.2)) := by
+    refine ⟨cellIdx_length sizes _ (effPoint_length h.1), fun i hi => ?_⟩
+    have := cellIdx_room sizes _ hs2 hy i hi
+    unfold lowerIdx
+    split_ifs <;> omega
+  have hnd : ((sSorted clipOn sizes x).map (·.2)).Nodup := sorted_snd_nodup _
+  have hlt := sorted_pos_lt clipOn sizes x h.1
+  have hoff : sOffset clipOn sizes x = ((ravel sizes (lowerIdx clipOn sizes x) : Nat) : Int) :=
+    simplexSplit_offset sizes _ hne hs2 hy
+  have hb : ∀ i ∈ sIndices clipOn sizes x, 0 ≤ i ∧ i.toNat < (kernelOf sizes K).length := by
+    have := indices_ok sizes (sSorted clipOn sizes x) (lowerIdx clipOn sizes x) 0 (sOffset clipOn sizes x)
+      (by rw [zero_add, hoff]) hroom hnd hlt
+    intro i hi
+    have hlen : (kernelOf sizes K).length = prodNat sizes := by simp [kernelOf, length_allIdx]
+    rw [hlen]
+    apply this
+    simpa [sIndices, stridesCode_eq sizes hne] using hi
+  rw [C02_T3_simplex_eq_walk clipOn sizes _ x (verify_ok hs2 h.1) hb, stridesCode_eq sizes hne, hoff]
+  unfold kernelOf
+  rw [walkF_eq_walkK sizes K _ 1 _ hroom hnd hlt]
+
 /-- T3 (vertices, index level): if all residuals are 0 or 1 (the point is a vertex), the walk
 returns the kernel value at the vertex `lower + Σ_{r_i = 1} e_i` — the value the hypercube scheme
-returns there (`C02_T2_vertex`), whatever the tie-breaking of the sort. -/
+returns there (`C02_T2_vertex`), whatever the tie-breaking of the sort. (Index-level lemma; the
+statement about the two entry points is `C02_T3_agree_vertex`.) -/
 theorem C02_T3_vertex_walk_partial (K : W) (P : Idx) (L : List (ℚ × Nat)) (hs : SortedDesc L)
     (h01 : ∀ p ∈ L, p.1 = 0 ∨ p.1 = 1) :
     walkK K 1 P L = K (bumpAll P ((L.filter (fun p => p.1 = 1)).map (·.2))) :=
@@ -328,7 +382,8 @@ theorem C02_T3_vertex_walk_partial (K : W) (P : Idx) (L : List (ℚ × Nat)) (hs
 
 /-- T3 (axis-parallel edges, index level): if all residuals are 0 or 1 except coordinate `d` with
 `0 < t < 1`, the walk is the chord `(1-t)·K(v) + t·K(v + e_d)` between the two neighbouring
-vertices — the hypercube cell formula (`C02_T2_cell` + `C02_T2_vertex`). -/
+vertices — the hypercube cell formula (`C02_T2_cell` + `C02_T2_vertex`). (Index-level lemma; the
+statement about the two entry points is `C02_T3_agree_edge`.) -/
 theorem C02_T3_edge_walk_partial (K : W) (P : Idx) (L : List (ℚ × Nat)) (d : Nat) (t : ℚ) (hs : SortedDesc L)
     (hnd : (L.map (·.2)).Nodup) (hd : (t, d) ∈ L) (ht0 : 0 < t) (ht1 : t < 1)
     (h01 : ∀ p ∈ L, p.2 ≠ d → p.1 = 0 ∨ p.1 = 1) :
@@ -336,11 +391,90 @@ theorem C02_T3_edge_walk_partial (K : W) (P : Idx) (L : List (ℚ × Nat)) (d : 
       + t * K (bump (bumpAll P ((L.filter (fun p => p.1 = 1)).map (·.2))) d) :=
   walkK_edge K P L d t hs hnd hd ht0 ht1 h01
 
+/-- T3 (hypercube = simplex on vertices and axis-parallel edges, the two entry-point models): if
+every coordinate of an in-range point except (possibly) coordinate `d` is an integer, then
+`evaluate_with_simplex_interpolation` and `evaluate_with_hypercube_interpolation` return the same
+value (any input form, any `clip_inputs`, endpoints of the edge included, outermost edge
+included). -/
+theorem C02_T3_agree_edge (form : InputForm) (clipOn : Bool) (sizes : List Nat) (K : W) (x : List ℚ) (d : Nat)
+    (hne : sizes ≠ []) (hs2 : ∀ n ∈ sizes, 2 ≤ n) (hx : InRange sizes x) (hd : d < sizes.length)
+    (hint : ∀ i, i < sizes.length → i ≠ d → ∃ k : Nat, x.getD i 0 = (k : ℚ)) :
+    evalSimplex clipOn sizes (kernelOf sizes K) x
+      = .ok (hypercubeValue form clipOn sizes (kernelOf sizes K) x) := by
+  have hdef : Defined clipOn sizes x := ⟨hx.length_eq, Or.inr hx⟩
+  have heff : effPoint clipOn sizes x = x := by
+    unfold effPoint; split_ifs
+    · exact clip_of_inRange sizes _ hx
+    · rfl
+  rw [C02_T3_simplex_index_bridge clipOn sizes K x hne hs2 hdef,
+    C02_T1_hypercube_eq_interp form clipOn sizes K x hne hx.length_eq (Or.inr (Or.inl hx))]
+  unfold lowerIdx sSorted sResid
+  rw [heff]
+  have hPl := cellIdx_length sizes x hx.length_eq
+  have hrl := simplexSplit_resid_length sizes x hx.length_eq
+  have hr := fun i hi => simplexSplit_resid_getD sizes x hs2 hx i hi
+  have hmem := simplexSplit_resid_mem sizes x hs2 hx
+  have h01 : ∀ i, i < sizes.length → i ≠ d →
+      (simplexSplit sizes x).2.getD i 0 = 0 ∨ (simplexSplit sizes x).2.getD i 0 = 1 := by
+    intro i hi hid
+    obtain ⟨k, hk⟩ := hint i hi hid
+    have hb := hmem _ (getD_mem_of_lt _ i (by rw [hrl]; exact hi))
+    rw [hr i hi, hk] at hb ⊢
+    have h1 : coord (cellIdx sizes x) i ≤ k := by
+      have : ((coord (cellIdx sizes x) i : Nat) : ℚ) ≤ (k : ℚ) := by linarith [hb.1]
+      exact_mod_cast this
+    have h2 : k ≤ coord (cellIdx sizes x) i + 1 := by
+      have : (k : ℚ) ≤ ((coord (cellIdx sizes x) i + 1 : Nat) : ℚ) := by push_cast; linarith [hb.2]
+      exact_mod_cast this
+    rcases Nat.lt_or_ge (coord (cellIdx sizes x) i) k with h | h
+    · right
+      have : k = coord (cellIdx sizes x) i + 1 := by omega
+      rw [this]; push_cast; ring
+    · left
+      have : k = coord (cellIdx sizes x) i := by omega
+      rw [this]; ring
+  have ht := hmem _ (getD_mem_of_lt _ d (by rw [hrl]; exact hd))
+  rw [simplex_edge_walk K (cellIdx sizes x) (simplexSplit sizes x).2 d (by rw [hrl, hPl])
+      (by rw [hPl]; exact hd) (fun i hi => h01 i (by rw [← hPl]; exact hi)) ht,
+    hyper_edge_value sizes K x (cellIdx sizes x) (simplexSplit sizes x).2 d hx.length_eq hPl hd
+      (fun i hi => by rw [hr i hi]; ring) (cellIdx_room sizes x hs2 hx) h01 ht]
+
+/-- T3 (vertices): at a vertex the simplex output is exactly that vertex's weight, hence equal to
+the hypercube output. -/
+theorem C02_T3_agree_vertex (form : InputForm) (clipOn : Bool) (sizes : List Nat) (K : W) (idx : Idx)
+    (hne : sizes ≠ []) (hs2 : ∀ n ∈ sizes, 2 ≤ n) (hi : idx ∈ allIdx sizes) :
+    evalSimplex clipOn sizes (kernelOf sizes K) (idx.map (fun (v : Nat) => (v : ℚ))) = .ok (K idx) ∧
+    evalSimplex clipOn sizes (kernelOf sizes K) (idx.map (fun (v : Nat) => (v : ℚ)))
+      = .ok (hypercubeValue form clipOn sizes (kernelOf sizes K) (idx.map (fun (v : Nat) => (v : ℚ)))) := by
+  have h0 : 0 < sizes.length := List.length_pos_iff.mpr hne
+  have := C02_T3_agree_edge form clipOn sizes K _ 0 hne hs2 (inRange_vertex sizes idx hi) h0
+    (fun i _ _ => ⟨coord idx i, getD_castIdx idx i⟩)
+  exact ⟨by rw [this, C02_T2_vertex form clipOn sizes K idx hne hi], this⟩
+
+/-- T3 (range): for in-range or clipped inputs the simplex evaluation succeeds and its output never
+leaves `[min kernel, max kernel]` (stated with arbitrary bounds `lo ≤ K ≤ hi` on the vertices). -/
+theorem C02_T3_simplex_range (clipOn : Bool) (sizes : List Nat) (K : W) (x : List ℚ) (lo hi : ℚ)
+    (hne : sizes ≠ []) (hs2 : ∀ n ∈ sizes, 2 ≤ n) (h : Defined clipOn sizes x)
+    (hK : ∀ idx ∈ allIdx sizes, lo ≤ K idx ∧ K idx ≤ hi) :
+    ∃ v, evalSimplex clipOn sizes (kernelOf sizes K) x = .ok v ∧ lo ≤ v ∧ v ≤ hi := by
+  refine ⟨_, C02_T3_simplex_index_bridge clipOn sizes K x hne hs2 h, ?_⟩
+  have hy := effPoint_inRange hs2 h
+  have hroom : Room sizes (lowerIdx clipOn sizes x) ((sSorted clipOn sizes x).map (·.2)) := by
+    refine ⟨cellIdx_length sizes _ (effPoint_length h.1), fun i hi => ?_⟩
+    have := cellIdx_room sizes _ hs2 hy i hi
+    unfold lowerIdx
+    split_ifs <;> omega
+  have hval : ∀ p ∈ sSorted clipOn sizes x, 0 ≤ p.1 ∧ p.1 ≤ 1 := fun p hp =>
+    simplexSplit_resid_mem sizes _ hs2 hy _ (mem_zipIdx_fst ((sortDesc_perm _).mem_iff.mp hp))
+  have := walkK_bounds sizes K lo hi hK (sSorted clipOn sizes x) 1 (lowerIdx clipOn sizes x) hroom
+    (sorted_snd_nodup _) (sorted_pos_lt clipOn sizes x h.1) (sortDesc_sorted _)
+    (fun p hp => (hval p hp).2) (fun p hp => (hval p hp).1) (by norm_num)
+  simpa using this
+
 /-! ## T4 (simplex) -/
 
-/-- the all-pairs statement for simplex interpolation (kept visible; proved below only inside one
-ordering region; proof plan via the partition / Lovász form: DESIGN.md C02). Checked on every
-monotone pair of the harness (pairs cross cells and ordering regions). -/
+/-- the all-pairs statement for simplex interpolation; proved below
+(`C02_T4_simplex_mono_all_pairs`). -/
 def C02_simplex_mono_all_pairs : Prop :=
   ∀ (clipOn : Bool) (sizes : List Nat) (K : W) (x : List ℚ) (d : Nat) (v : ℚ) (a b : ℚ),
     sizes ≠ [] → (∀ n ∈ sizes, 2 ≤ n) → d < sizes.length → MonoAx sizes d K →
@@ -348,16 +482,60 @@ def C02_simplex_mono_all_pairs : Prop :=
     evalSimplex clipOn sizes (kernelOf sizes K) x = .ok a →
     evalSimplex clipOn sizes (kernelOf sizes K) (x.set d v) = .ok b → a ≤ b
 
-/-- T4 (simplex, PARTIAL): inside one cell and one ordering region — same lower corner `P`, same
-sorted index order, residuals equal except that of coordinate `d` which grows — the simplex walk
-does not decrease when `K` is non-decreasing in coordinate `d`. Missing for the full statement
-`C02_simplex_mono_all_pairs`: the index bridge above, and gluing regions/cells (continuity at
-ties, i.e. tie-independence, is `C02_T3_vertex_walk_partial`-style reasoning). -/
+/-- T4 (simplex, one ordering region; superseded by `C02_T4_simplex_mono` but kept): same lower
+corner `P`, same sorted index order, residuals equal except that of coordinate `d` which grows ⇒
+the simplex walk does not decrease when `K` is non-decreasing in coordinate `d`. -/
 theorem C02_simplex_partial (K : W) (d : Nat) (L L' : List (ℚ × Nat)) (prev : ℚ) (P : Idx)
     (hσ : L.map (·.2) = L'.map (·.2)) (hnd : (L.map (·.2)).Nodup)
     (hf : List.Forall₂ (fun p q => if p.2 = d then p.1 ≤ q.1 else p.1 = q.1) L L')
     (hK : ∀ Q, K Q ≤ K (bump Q d)) : walkK K prev P L ≤ walkK K prev P L' :=
   walkK_mono_region K d L L' prev P hσ hnd hf hK
+
+/-- T3/T4 (tie-independence): any two descending arrangements of the same (residual, position)
+pairs give the same simplex value — the output does not depend on how `argsort` breaks ties. -/
+theorem C02_T3_tie_independent (K : W) (L L' : List (ℚ × Nat)) (prev : ℚ) (P : Idx)
+    (hs : SortedDesc L) (hs' : SortedDesc L') (hp : L.Perm L') : walkK K prev P L = walkK K prev P L' :=
+  walkK_tie_indep K L L' prev P hs hs' hp
+
+/-- T4 (simplex, ALL pairs): if the kernel is non-decreasing along dimension `d`, then for EVERY
+pair of in-range or clipped points that differ only in coordinate `d` (`x_d ≤ v`; across ordering
+regions of the sort, across any number of cells, through ties and cell faces) both simplex
+evaluations succeed and the output does not decrease. Proof: index bridge; tie-independence puts
+the sorted list into the canonical form "other coordinates with `(t, d)` inserted"; inserting at
+a larger value is monotone by induction along the list (`walkK_insert_mono`); residual 1 in a cell
+equals residual 0 in the next cell (`walk_face`); a finite chain of cells along the axis. -/
+theorem C02_T4_simplex_mono (clipOn : Bool) (sizes : List Nat) (K : W) (x : List ℚ) (d : Nat) (v : ℚ)
+    (hne : sizes ≠ []) (hs2 : ∀ n ∈ sizes, 2 ≤ n) (hd : d < sizes.length) (hm : MonoAx sizes d K)
+    (hx : Defined clipOn sizes x) (hx' : Defined clipOn sizes (x.set d v)) (hv : x.getD d 0 ≤ v) :
+    ∃ a b, evalSimplex clipOn sizes (kernelOf sizes K) x = .ok a ∧
+      evalSimplex clipOn sizes (kernelOf sizes K) (x.set d v) = .ok b ∧ a ≤ b := by
+  refine ⟨_, _, C02_T3_simplex_index_bridge clipOn sizes K x hne hs2 hx,
+    C02_T3_simplex_index_bridge clipOn sizes K _ hne hs2 hx', ?_⟩
+  have hy := effPoint_inRange hs2 hx
+  have hy' := effPoint_inRange hs2 hx'
+  unfold lowerIdx sSorted sResid
+  -- the clipped upper point is the clipped lower point with coordinate d replaced
+  obtain ⟨w, hw, hset⟩ : ∃ w, (effPoint clipOn sizes x).getD d 0 ≤ w ∧
+      effPoint clipOn sizes (x.set d v) = (effPoint clipOn sizes x).set d w := by
+    cases clipOn with
+    | true =>
+      refine ⟨clipV v 0 ((sizes.getD d 0 : ℚ) - 1), ?_, ?_⟩
+      · simp only [effPoint, if_true]
+        rw [clipOntoRange_getD sizes x d hx.1 hd]
+        exact clipV_mono hv
+      · simp only [effPoint, if_true]
+        exact clipOntoRange_set sizes x d v
+    | false => exact ⟨v, by simpa [effPoint] using hv, by simp [effPoint]⟩
+  rw [hset] at hy' ⊢
+  exact simplex_cell_mono sizes K d hs2 hd hm _ w hy hy' hw
+
+/-- T4 (simplex): the all-pairs statement holds. -/
+theorem C02_T4_simplex_mono_all_pairs : C02_simplex_mono_all_pairs := by
+  intro clipOn sizes K x d v a b hne hs2 hd hm hx hx' hv ha hb
+  obtain ⟨a', b', ha', hb', hab⟩ := C02_T4_simplex_mono clipOn sizes K x d v hne hs2 hd hm hx hx' hv
+  rw [ha'] at ha; rw [hb'] at hb
+  cases ha; cases hb
+  exact hab
 
 /-! ## non-vacuity and instances (kernel computation) -/
 
@@ -393,6 +571,11 @@ example : evalSimplex true [3, 2] (kernelOf [3, 2] Kex) [7/2, -1]
 example : evalSimplex false [3, 2] (kernelOf [3, 2] Kex) [2, 1] = .ok (Kex [2, 1]) := by decide +kernel
 example : evalSimplex false [3, 2] (kernelOf [3, 2] Kex) [3/2, 1]
     = .ok (hypercubeValue .tensor false [3, 2] (kernelOf [3, 2] Kex) [3/2, 1]) := by decide +kernel
+-- a monotone pair along axis 0 (Kex is non-decreasing along it) ending on the face between two cells
+example : evalSimplex false [3, 2] (kernelOf [3, 2] Kex) [1/2, 3/4] = .ok (15/4) := by decide +kernel
+example : evalSimplex false [3, 2] (kernelOf [3, 2] Kex) ([1/2, 3/4].set 0 1) = .ok 4 := by decide +kernel
+example : Defined false [3, 2] ([1/2, 3/4].set 0 1) :=
+  ⟨rfl, Or.inr (by simp only [List.set_cons_zero]; unfold InRange InRange InRange; decide +kernel)⟩
 -- unclipped out-of-range simplex input whose gather index leaves the kernel: InvalidArgument
 example : evalSimplex false [3, 3] [0, 1, 2, 3, 4, 5, 6, 7, 8] [-3/2, 2] = .error .invalidArgument := by
   decide +kernel
